@@ -326,11 +326,10 @@ def check_charge_arithmetic(ctx, rid):
     from ..accessors import AccessorEval, Raised, Rec
     from ..symarr import NotSymbolic, Sym, sym_array
 
+    from ..symarr import SymbolicBranch
+
     prog = ctx.prog
     ci = prog.cls("iodata.iodata.IOData")
-    z = sym_array("z", (2,))
-    zsum = z[0] + z[1]
-    q, n = Sym.atom("q"), Sym.atom("n")
 
     def fresh(**kw):
         f = {name: None for name in ci.fields}
@@ -340,31 +339,53 @@ def check_charge_arithmetic(ctx, rid):
     def eq(a, b):
         return a is not None and not isinstance(a, np.ndarray) and Sym.const(a) == Sym.const(b)
 
-    cases = []
-    try:
+    def sequences(tag, z, q, n):
+        zsum = z[0] + z[1] if isinstance(q, Sym) else float(z[0] + z[1])
+        out = []
         ev = AccessorEval(prog, ci, limit=4000)
         r = fresh(_atcorenums=z.copy())
         ev.set(r, "charge", q)
-        cases.append(("core charges known, charge := q", eq(ev.get(r, "nelec"), zsum - q) and eq(ev.get(r, "charge"), q), f"nelec = {ev.get(r, 'nelec')!r}, charge = {ev.get(r, 'charge')!r}; expected nelec = z0 + z1 - q, charge = q"))
+        out.append((f"core charges known, charge := {tag[0]}", eq(ev.get(r, "nelec"), zsum - q) and eq(ev.get(r, "charge"), q), f"nelec = {ev.get(r, 'nelec')!r}, charge = {ev.get(r, 'charge')!r}; expected nelec = {zsum - q!r}, charge = {q!r}"))
         r = fresh(_atcorenums=z.copy())
         ev.set(r, "nelec", n)
-        cases.append(("core charges known, nelec := n", eq(ev.get(r, "charge"), zsum - n) and eq(ev.get(r, "nelec"), n), f"charge = {ev.get(r, 'charge')!r}; expected z0 + z1 - n"))
+        out.append((f"core charges known, nelec := {tag[1]}", eq(ev.get(r, "charge"), zsum - n) and eq(ev.get(r, "nelec"), n), f"charge = {ev.get(r, 'charge')!r}, nelec = {ev.get(r, 'nelec')!r}; expected charge = {zsum - n!r}"))
         r = fresh()
         ev.set(r, "charge", q)
         ev.set(r, "atcorenums", z.copy())
-        cases.append(("charge := q, then core charges := z", eq(ev.get(r, "nelec"), zsum - q) and eq(ev.get(r, "charge"), q), f"nelec = {ev.get(r, 'nelec')!r}, charge = {ev.get(r, 'charge')!r}; expected nelec = z0 + z1 - q, charge = q"))
+        out.append((f"charge := {tag[0]}, then core charges := z", eq(ev.get(r, "nelec"), zsum - q) and eq(ev.get(r, "charge"), q), f"nelec = {ev.get(r, 'nelec')!r}, charge = {ev.get(r, 'charge')!r}; expected nelec = {zsum - q!r}, charge = {q!r}"))
         r = fresh(_atcorenums=z.copy())
         ev.set(r, "nelec", n)
         ev.set(r, "atcorenums", None)
-        cases.append(("nelec := n with core charges, then core charges := None", eq(ev.get(r, "charge"), zsum - n) and eq(ev.get(r, "nelec"), n), f"charge = {ev.get(r, 'charge')!r}, nelec = {ev.get(r, 'nelec')!r}; expected the charge z0 + z1 - n to be kept"))
+        out.append((f"nelec := {tag[1]} with core charges, then core charges := None", eq(ev.get(r, "charge"), zsum - n) and eq(ev.get(r, "nelec"), n), f"charge = {ev.get(r, 'charge')!r}, nelec = {ev.get(r, 'nelec')!r}; expected the charge {zsum - n!r} to be kept"))
         r = fresh(atnums=np.array([8, 1]))
         ev.set(r, "charge", q)
-        cases.append(("only atomic numbers [8, 1] known, charge := q", eq(ev.get(r, "nelec"), Sym.const(9) - q), f"nelec = {ev.get(r, 'nelec')!r}; expected 9 - q (core charges default to the atomic numbers)"))
-    except Raised as exc:
-        ctx.violate(rid, f"charge / nelec / atcorenums accessors raise {exc.args[0]} on a legal assignment sequence", relpath=ci.module.relpath, function=ci.qualname, node=ci.node, construct="charge arithmetic raises")
-        return
-    except NotSymbolic as exc:
-        raise AnalysisError(f"IOData charge accessors are outside the evaluation whitelist: {exc}") from exc
+        out.append((f"only atomic numbers [8, 1] known, charge := {tag[0]}", eq(ev.get(r, "nelec"), Sym.const(9) - q), f"nelec = {ev.get(r, 'nelec')!r}; expected {Sym.const(9) - q!r} (core charges default to the atomic numbers)"))
+        return out
+
+    # values: symbols (any number), and the numbers where a truth test or a sign slip shows -- zero electrons (a bare
+    # nucleus), zero charge, a negative charge
+    variants = [
+        (("q", "n"), sym_array("z", (2,)), Sym.atom("q"), Sym.atom("n")),
+        (("0", "0"), np.array([8.0, 1.0]), 0.0, 0.0),
+        (("-1", "10"), np.array([8.0, 1.0]), -1.0, 10.0),
+    ]
+    cases = []
+    decided = 0
+    for tag, z, q, n in variants:
+        try:
+            cases.extend(sequences(tag, z, q, n))
+            decided += 1
+        except Raised as exc:
+            ctx.violate(rid, f"charge / nelec / atcorenums accessors raise {exc.args[0]} on a legal assignment sequence (charge {tag[0]}, nelec {tag[1]})", relpath=ci.module.relpath, function=ci.qualname, node=ci.node, construct="charge arithmetic raises")
+            return
+        except SymbolicBranch:
+            if not isinstance(q, Sym):
+                raise AnalysisError("IOData charge accessors branch on an array value")
+            continue  # the accessors test the truth of a value: decided on the numbers below
+        except NotSymbolic as exc:
+            raise AnalysisError(f"IOData charge accessors are outside the evaluation whitelist: {exc}") from exc
+    if decided < 2:
+        raise AnalysisError("IOData charge accessors could not be evaluated on numbers")
     bad = [(label, why) for label, ok_, why in cases if not ok_]
     if bad:
         label, why = bad[0]
